@@ -298,11 +298,28 @@ def rule_value_width(ctx: Ctx, prog: Program) -> None:
     if len(kinds) <= 1:
         ctx.ok("R-VALUE-WIDTH", "the arrays that carry domain values and view offsets have one integer type", sample={k: v[0] for k, v in found.items()})
         return
-    ref = found.get("shr_domains_stack", next(iter(found.values())))[0]
+    import re as _re
+
+    def bits(dt: str) -> int:
+        m_ = _re.search(r"(\d+)$", dt)
+        return int(m_.group(1)) if m_ else 0
+    if any(bits(v[0]) == 0 or v[0].startswith("u") for v in found.values()):
+        raise AnalysisError(f"R-VALUE-WIDTH: element types not read ({ {k: v[0] for k, v in found.items()} })")
+    # the two offset tables hold the same numbers: the narrower one loses; the stack holds value = view - offset: it must be at least as wide
+    # as the offsets (a stack wider than the offsets is harmless)
+    off = {k: v for k, v in found.items() if k != "shr_domains_stack"}
+    widest_off = max(bits(v[0]) for v in off.values())
+    ref = next(v[0] for v in off.values() if bits(v[0]) == widest_off)
+    bad_names = {k for k, v in off.items() if bits(v[0]) < widest_off}
+    if "shr_domains_stack" in found and bits(found["shr_domains_stack"][0]) < widest_off:
+        bad_names.add("shr_domains_stack")
+    if not bad_names:
+        ctx.ok("R-VALUE-WIDTH", "no carrier of domain values / view offsets is narrower than the offsets it has to hold", sample={k: v[0] for k, v in found.items()})
+        return
     for name, (dt, path, line) in sorted(found.items()):
-        if dt != ref:
+        if name in bad_names:
             ctx.violation("R-VALUE-WIDTH", path, name, f"width:{name}", f"{path}:{line}",
-                          f"{name} is allocated as {dt} while the domain stack is {ref}: an offset (or value) that the stack and the other offset table "
+                          f"{name} is allocated as {dt} while another carrier of the same numbers is {ref}: an offset (or value) that the stack and the other offset table "
                           f"represent is stored modulo 2**bits in {name}, without an error; the constraints are then filtered under another translation "
                           "than the one solutions are reported with")
 
